@@ -1,3 +1,4 @@
+import XcmModel.Lemmas.Btls
 import XcmModel.Props.C01
 /-!
 # C07 — hostile or corrupt wire input cannot harm or mislead the receiver
@@ -239,3 +240,57 @@ example :
   decide
 
 end XcmModel.C07
+
+/-! ## btls: garbage during or instead of the TLS handshake, or inside the record stream -/
+namespace XcmModel.C07btls
+open XcmModel XcmModel.Btls
+
+/-- what OpenSSL reports for undecodable input: SSL_ERROR_SSL, or SSL_ERROR_SYSCALL with a queued error -/
+def ProtoErr : SslEv → Prop
+  | .sslErr => True
+  | .syscall _ q => q = true
+  | _ => False
+
+theorem pse_proto (s : St) (c : Nat) (e : SslEv) (h : ProtoErr e) : (processSslEvent s c e).state = .bad EPROTO := by
+  cases e <;> simp [ProtoErr] at h <;> simp [processSslEvent, h]
+
+/-- garbage during (or instead of) the handshake: whichever call drives the handshake reports EPROTO, the
+connection is bad(EPROTO), no application data moved -/
+theorem C07_btls_handshake_garbage (s : St) (e : SslEv) (hs : s.state = .handshaking) (he : ProtoErr e) :
+    (tryFinishHandshake s (.ev e)).state = .bad EPROTO ∧
+    (∀ buf w, (send s buf (.ev e) w).2 = (.err EPROTO, false)) ∧
+    (∀ cap r, (receive s cap (.ev e) r).2 = (.err EPROTO, false)) ∧
+    (∀ l, (finish s (.ev e) l).2 = .err EPROTO) := by
+  have hb : (tryFinishHandshake s (.ev e)).state = .bad EPROTO := by
+    unfold tryFinishHandshake
+    rw [if_neg (by simp [hs])]
+    exact pse_proto _ _ _ he
+  refine ⟨hb, fun buf w => ?_, fun cap r => ?_, fun l => ?_⟩
+  · unfold send; generalize tryFinishHandshake s (.ev e) = s1 at hb; simp only [hb]
+  · unfold receive; generalize tryFinishHandshake s (.ev e) = s1 at hb; simp only [hb]
+  · unfold finish; generalize tryFinishHandshake s (.ev e) = s1 at hb; simp only [hb]
+
+/-- garbage inside the record stream of an established connection: the receive that meets it reports EPROTO
+and delivers nothing -/
+theorem C07_btls_record_garbage (s : St) (cap : Nat) (h : HAns) (e : SslEv) (hs : s.state = .ready) (he : ProtoErr e) :
+    (receive s cap h (.ev e)).2.1 = .err EPROTO ∧ (receive s cap h (.ev e)).1.state = .bad EPROTO ∧
+    (receive s cap h (.ev e)).1.delivered = s.delivered := by
+  have ht : tryFinishHandshake s h = s := by unfold tryFinishHandshake; simp [hs]
+  have hb := pse_proto { s with sslCondition := 0, sslWants := 0 } RECEIVABLE e he
+  have f := frame_pse { s with sslCondition := 0, sslWants := 0 } RECEIVABLE e
+  unfold receive
+  rw [ht]
+  simp only
+  split
+  · rename_i h'; rw [hs] at h'; cases h'
+  · rename_i h'; rw [hs] at h'; cases h'
+  · rename_i h'; rw [hs] at h'; cases h'
+  · generalize processSslEvent { s with sslCondition := 0, sslWants := 0 } RECEIVABLE e = s3 at hb f
+    exact ⟨by simp only [hb], by simp only [hb], by simp only [hb]; exact f.delivered⟩
+
+/-- no assertion of the TLS layer fires, whatever OpenSSL answers (under K-openssl-eagain) -/
+theorem C07_btls_no_abort (auth : Bool) (h0 : HAns) (ops : List Op) (hh : HOk h0) (ho : ∀ op ∈ ops, OpOk op) :
+    (run (tryFinishHandshake { auth := auth } h0) ops).aborted = false :=
+  (run_winv ops (entered_winv auth h0 hh) ho).noAbort
+
+end XcmModel.C07btls
